@@ -163,8 +163,16 @@ func (c *Ctx) data() channel.Data {
 
 // Base returns a valid state of the channel with the given version/final flag.
 func (c *Ctx) Base(version uint64, final bool) *channel.State {
-	return &channel.State{ID: c.Params.ID(), Version: version, App: c.Params.App, Data: c.data(),
+	s := &channel.State{ID: c.Params.ID(), Version: version, App: c.Params.App, Data: c.data(),
 		Allocation: c.alloc(100), IsFinal: final}
+	if c.G.R.Intn(2) == 0 { // every other base state carries locked funds
+		bals := make([]channel.Bal, len(s.Assets))
+		for i := range bals {
+			bals[i] = big.NewInt(int64(c.G.R.Intn(50)))
+		}
+		s.Locked = []channel.SubAlloc{*channel.NewSubAlloc(c.G.ID(), bals, nil)}
+	}
+	return s
 }
 
 // Succ returns a valid successor of cur in which `actor` pays (valid for the payment app too).
@@ -264,12 +272,14 @@ func (c *Ctx) Candidates(cur *channel.State) []candidate {
 		}
 		add("extra-participant-funded", s, actor)
 	}
-	if c.N > 2 {
+	{
 		s := ok()
 		for i := range s.Balances {
 			l := len(s.Balances[i])
-			s.Balances[i][l-2] = new(big.Int).Add(s.Balances[i][l-2], s.Balances[i][l-1])
-			s.Balances[i] = s.Balances[i][:l-1]
+			if l >= 2 {
+				s.Balances[i][l-2] = new(big.Int).Add(s.Balances[i][l-2], s.Balances[i][l-1])
+				s.Balances[i] = s.Balances[i][:l-1]
+			}
 		}
 		add("missing-participant", s, actor)
 	}
@@ -324,6 +334,78 @@ func (c *Ctx) Candidates(cur *channel.State) []candidate {
 		t := s.Clone()
 		t.Locked[len(t.Locked)-1].Bals = t.Locked[len(t.Locked)-1].Bals[:0]
 		add("locked-wrong-dim", t, actor)
+	}
+	{
+		// a participant other than the actor pays (sums unchanged): into a new sub-allocation ...
+		s := cur.Clone()
+		s.Version++
+		s.Data = c.data()
+		j := (actor + 1) % c.N
+		bals := make([]channel.Bal, len(s.Assets))
+		for i := range bals {
+			bals[i] = big.NewInt(0)
+			if j < len(s.Balances[i]) && s.Balances[i][j].Sign() > 0 {
+				bals[i] = big.NewInt(1)
+				s.Balances[i][j] = new(big.Int).Sub(s.Balances[i][j], big.NewInt(1))
+			}
+		}
+		s.Locked = append(s.Locked, *channel.NewSubAlloc(c.G.ID(), bals, nil))
+		add("peer-funds-locked", s, actor)
+	}
+	if c.N > 2 {
+		// ... or to a third participant
+		s := cur.Clone()
+		s.Version++
+		s.Data = c.data()
+		j, k := (actor+1)%c.N, (actor+2)%c.N
+		for i := range s.Balances {
+			if j < len(s.Balances[i]) && k < len(s.Balances[i]) && s.Balances[i][j].Sign() > 0 {
+				s.Balances[i][j] = new(big.Int).Sub(s.Balances[i][j], big.NewInt(1))
+				s.Balances[i][k] = new(big.Int).Add(s.Balances[i][k], big.NewInt(1))
+			}
+		}
+		add("peer-pays-third", s, actor)
+	}
+	{
+		// participant balances untouched, locked funds created from nothing
+		s := cur.Clone()
+		s.Version++
+		s.Data = c.data()
+		bals := make([]channel.Bal, len(s.Assets))
+		for i := range bals {
+			bals[i] = big.NewInt(int64(1 + c.G.R.Intn(1000)))
+		}
+		s.Locked = append(s.Locked, *channel.NewSubAlloc(c.G.ID(), bals, nil))
+		add("locked-from-nothing", s, actor)
+	}
+	if len(cur.Locked) > 0 {
+		s := cur.Clone()
+		s.Version++
+		s.Data = c.data()
+		l := &s.Locked[c.G.R.Intn(len(s.Locked))]
+		if len(l.Bals) > 0 {
+			i := c.G.R.Intn(len(l.Bals))
+			l.Bals[i] = new(big.Int).Add(l.Bals[i], big.NewInt(500))
+		}
+		add("locked-inflated", s, actor)
+		t := cur.Clone()
+		t.Version++
+		t.Data = c.data()
+		t.Locked = t.Locked[:len(t.Locked)-1]
+		add("locked-dropped", t, actor)
+		u := cur.Clone()
+		u.Version++
+		u.Data = c.data()
+		// locked funds released to the actor's peer: sums unchanged, valid for NoApp, payment: actor unchanged
+		last := u.Locked[len(u.Locked)-1]
+		u.Locked = u.Locked[:len(u.Locked)-1]
+		j := (actor + 1) % c.N
+		for i := range u.Balances {
+			if i < len(last.Bals) && j < len(u.Balances[i]) {
+				u.Balances[i][j] = new(big.Int).Add(u.Balances[i][j], last.Bals[i])
+			}
+		}
+		add("locked-released", u, actor)
 	}
 	if c.Kind == "mock" {
 		s := ok()
@@ -813,6 +895,11 @@ func (c *Ctx) opClasses(ph channel.Phase, staging, current channel.Transaction) 
 		}
 	}
 	add(Op{Kind: "ForceUpdate", S: cands[0].s, Actor: 0, Class: "valid"})
+	for _, cd := range cands {
+		if (cd.name == "missing-participant" || cd.name == "extra-participant") && cd.s.Valid() == nil {
+			add(Op{Kind: "ForceUpdate", S: cd.s, Actor: 0, Class: cd.name})
+		}
+	}
 	peer := (c.Me + 1) % c.N
 	add(Op{Kind: "CheckUpdate", S: cands[0].s, Actor: cands[0].actor, Sig: c.Sign(peer, cands[0].s), Idx: peer, Class: "valid-sig"})
 	add(Op{Kind: "CheckUpdate", S: cands[0].s, Actor: cands[0].actor, Sig: c.Sign(peer, cands[1].s), Idx: peer, Class: "sig-other-state"})
@@ -981,7 +1068,7 @@ func (c *Ctx) randomOp(m *channel.StateMachine) Op {
 		} else if g.R.Intn(4) == 0 {
 			cd = cands[1]
 		}
-		if kind != "Update" && kind != "CheckUpdate" && (cd.s.Valid() != nil || cd.s.NumParts() != c.N) {
+		if kind != "Update" && kind != "CheckUpdate" && cd.s.Valid() != nil {
 			cd = cands[0] // forced/progressed states are taken from valid states (model assumption)
 		}
 		o.S, o.Actor, o.Class = cd.s, cd.actor, cd.name
